@@ -32,17 +32,18 @@ Proof. intros s. right. exists t, s. reflexivity. Qed.
 Variable lossless : N -> N -> bytes -> res unit.
 
 Ltac usim_walk :=
-  repeat first
-    [ apply usim_unsupported
-    | apply usim_refl
-    | assumption
-    | match goal with H : forall _, usim _ _ |- _ => apply H end
-    | apply usim_bind; [|intros ?]
-    | match goal with
-      | |- usim (let '(_, _) := ?x in _) _ => destruct x
-      | |- usim (if ?b then _ else _) (if ?b then _ else _) => destruct b
-      | |- usim (match ?x with _ => _ end) (match ?x with _ => _ end) => destruct x
-      end ].
+  cbv zeta;
+  repeat match goal with
+    | |- usim ?p ?p => apply usim_refl
+    | |- usim (Ret (EParse (UnsupportedChunk _))) _ => apply usim_unsupported
+    | |- usim (pbind _ _) (pbind _ _) => apply usim_bind; [|intros ?]
+    | |- usim (if ?b then _ else _) (if ?b then _ else _) => destruct b
+    | |- usim (match ?x with _ => _ end) (match ?x with _ => _ end) => destruct x
+    | H : forall _, usim _ _ |- usim (?f _ _ _ _) _ => apply H
+    | H : forall _, usim _ _ |- usim (?f _ _ _ _ _) _ => apply H
+    | H : forall _, usim _ _ |- usim (?f _ _ _) _ => apply H
+    | H : forall _ _, usim _ _ |- usim (?f _ _ _ _ _) _ => apply H
+    end.
 
 Lemma usim_file_tail fuel : forall l, usim (file_tail false fuel l) (file_tail true fuel l).
 Proof.
